@@ -16,7 +16,7 @@ func init() {
 }
 
 type histOp struct {
-	Kind int // 0 Resolve, 1 Validate, 2 Marshal
+	Kind int // 0 Resolve, 1 Validate, 2 Marshal, 3 Resolve of a CloneSchemas copy
 	R    int // which earlier Resolve result (index modulo those available)
 	Inst int
 	VD   bool // Resolve with ValidateDefaults
@@ -31,6 +31,8 @@ func (o histOp) String() string {
 		return "Resolve"
 	case 1:
 		return fmt.Sprintf("Validate(R%d,inst%d)", o.R, o.Inst)
+	case 3:
+		return "Resolve(CloneSchemas())"
 	}
 	return "Marshal"
 }
@@ -83,7 +85,10 @@ func driveC14(c *Ctx) {
 	var doc map[string]any
 	var text string
 	var insts []any
-	switch c.W(8) {
+	switch c.W(9) {
+	case 8:
+		text, insts = GenMixedDraft(c)
+		c.Probe("world:mixed-draft")
 	case 0, 1:
 		uni = GenUniverse(c, UniOpts{Draft7: draft7})
 		doc = uni.Docs[0].Body
@@ -125,6 +130,8 @@ func driveC14(c *Ctx) {
 		switch k := c.W(6); {
 		case k == 0:
 			ops = append(ops, histOp{Kind: 0, VD: c.W(3) == 0})
+		case k == 1 && c.W(3) == 0:
+			ops = append(ops, histOp{Kind: 3})
 		case k == 1:
 			ops = append(ops, histOp{Kind: 2})
 		default:
@@ -164,9 +171,20 @@ func driveC14(c *Ctx) {
 		for oi, op := range ops {
 			var d, sig string
 			switch op.Kind {
-			case 0:
+			case 0, 3:
 				var res *jsonschema.Resolved
 				var err error
+				tree := &schema
+				if op.Kind == 3 {
+					// an equal tree: what the later Validate calls say about it must be what they
+					// say about the original
+					r := Op(func() { tree = schema.CloneSchemas() })
+					c.CheckOp("CloneSchemas", r)
+					if r.Panicked || tree == nil {
+						vec = append(vec, r.String())
+						continue
+					}
+				}
 				opts := &jsonschema.ResolveOptions{ValidateDefaults: op.VD}
 				var calls []string // the sequence of loader requests is an observable effect of Resolve
 				if uni != nil {
@@ -179,7 +197,7 @@ func driveC14(c *Ctx) {
 					inner := dyn.loader()
 					opts.Loader = func(u *url.URL) (*jsonschema.Schema, error) { calls = append(calls, u.String()); return inner(u) }
 				}
-				r := Op(func() { res, err = schema.Resolve(opts) })
+				r := Op(func() { res, err = tree.Resolve(opts) })
 				c.CheckOp("Resolve", r)
 				if r.Panicked {
 					d = r.String()
